@@ -1,6 +1,6 @@
 (** C01: the generated parser recognises exactly the grammar's PEG language. *)
 From PegV Require Import Base.Tac Spec.Syntax Spec.Peg Spec.WF Model.Machine Model.Gen Model.Analyses Model.Emit Model.SEmit Model.Exec
-  Proofs.Top Proofs.EmitUse Proofs.SEmitSound Proofs.SEmitFile Proofs.DeepDefault Proofs.CountInline Properties.Example Generated.PegPeg.
+  Proofs.Top Proofs.EmitUse Proofs.SEmitSound Proofs.SEmitFile Proofs.DeepDefault Proofs.CountInline Model.Optimize Proofs.OptSound Proofs.ParseTop Properties.Example Generated.PegPeg.
 From Coq Require Import Lia.
 Local Open Scope nat_scope.
 
@@ -168,6 +168,33 @@ Theorem C01_generated_code_is_machine :
       machine g ptx buf penv memo inline (S n) r st0 = Some res /\ res <> Crash.
 Proof. exact generated_code_is_machine. Qed.
 Print Assumptions C01_generated_code_is_machine.
+
+(** THE HEADLINE, at the level of the statements peg writes: for every grammar with a well-formedness certificate
+    (ranges in order, two alternatives per choice, every reference defined - what the front end builds and the link pass
+    leaves), under every combination of -inline and -switch ([tree_of sw g] is the optimised tree when -switch is on) and
+    with or without the memo table, on every input of code points and from every earlier parser state, the call Parse()
+    makes - the first rule's function in a reset parser - has an execution, that execution returns and is the only one,
+    and what it returns is the verdict, the offset and the token list of the PEG semantics of the grammar AS WRITTEN.
+    No hypothesis about the analysis, the optimised tree, the emitter's bookkeeping or the existence of a result
+    (Proofs/ParseTop.v: Ford's totality, the -switch rewrite's soundness, the machine simulation, the goto semantics of
+    the emitted statements, its determinism, and the counting arguments for the emitter's fuel, composed). *)
+Theorem C01_generated_parser_correct :
+  forall g tab rank, wf_b g tab rank = true -> good_grammar g ->
+  (forall r b, nth_error g r = Some (RBody b) -> ranges_ok b = true) ->
+  grammar_alt2 g -> closed_names g ->
+  forall ptx buf penv, good_buf buf -> valid_buf buf ->
+  forall memo inline sw rb st0,
+    nth_error g 0 = Some rb -> rb <> RNil ->
+    exists n res evs b st',
+      peg_parse g ptx buf penv n 0 = Some (res, evs) /\
+      xcall buf penv (mk_opts true memo inline (tree_of sw g)) (gen_fn (tree_of sw g) ptx inline) 0 (reset st0) (Ret b st') /\
+      (forall out, xcall buf penv (mk_opts true memo inline (tree_of sw g)) (gen_fn (tree_of sw g) ptx inline) 0 (reset st0) out -> out = Ret b st') /\
+      match res with
+      | Succ p f => b = true /\ pos st' = p /\ live st' = Syntax.flat f
+      | Fail => b = false
+      end.
+Proof. exact generated_parser_correct. Qed.
+Print Assumptions C01_generated_parser_correct.
 
 (** non-vacuity: the side condition holds for the example grammar under both settings and for the grammar
     peg's own front end is generated from (-inline -switch), and the first rule of the example has a function of more than four statements *)
